@@ -100,6 +100,10 @@ class Runner:
         self.close_task = None
         self.close_t0 = None
         self.close_t1 = None
+        self.gates = {}  # addr -> asyncio.Event the protocol-level new-device callback waits for (harness-only G / R events)
+        self.gate_waiting = set()  # addrs whose callback is blocked right now
+        self.fed = []  # (event index, addr, kind) of every complete frame for us handed to a reading producer
+        self.nev = -1
         self.devices = {}  # addr -> device object first seen
         self.dev_ids = {}
         self.own = set()
@@ -132,6 +136,15 @@ class Runner:
             device.subscribe("connected", on_connected)
             device.subscribe("password", on_password)
             device.subscribe("sensors", on_sensors)
+            gate = self.gates.get(addr)
+            if gate is not None and not gate.is_set():
+                # a slow user callback on the protocol's device-name event: the frame consumer that created the
+                # device stays inside get_device_entry (holding the entry lock) until the harness releases it
+                self.gate_waiting.add(addr)
+                try:
+                    await gate.wait()
+                finally:
+                    self.gate_waiting.discard(addr)
 
         return cb
 
@@ -170,6 +183,17 @@ class Runner:
         parts = ev.split(":")
         loop = self.loop
         k = parts[0]
+        self.nev += 1
+        if k == "G":  # harness only: the next new-device callback for this address blocks until R
+            a = int(parts[1])
+            if a not in self.gates and ADDR_NAME.get(a) not in self.protocol.data:
+                self.gates[a] = asyncio.Event()
+            return self.segment()
+        if k == "R":  # harness only: release every gate
+            for g in self.gates.values():
+                g.set()
+            self.settle()
+            return self.segment()
         if k == "C":
             c, _ = self.classify()
             idle = (self.connect_task is None or self.connect_task.done()) and self.close_task is None
@@ -183,8 +207,10 @@ class Runner:
                 r = self.conn.readers[-1]
                 if parts[1] == "p":
                     data = connfake.password_frame(int(parts[2]))
+                    self.fed.append((self.nev, int(parts[2]), 186))
                 elif parts[1] == "s":
                     data = connfake.sensor_frame(int(parts[2]), int(parts[3]))
+                    self.fed.append((self.nev, 69, 53))
                 elif parts[1] == "f":
                     data = connfake.foreign_frame()
                 else:
